@@ -141,3 +141,54 @@ def _hash_post(c):
 
 PROCS.append(CProc('IB__hash__', [('self', OBJ)], result=INT, requires=_hash_pre, ensures=_hash_post, modifies=['_v_cached_hash'],
                    api=API, globals=GLOBALS))
+
+
+# ------------------------------------------------------------------ IB__init__: the twin of InterfaceBase.__init__(self, name=None, module=None)
+FIELDS.update({'_implied': OBJ, '_dependents': OBJ, '_bases': OBJ, '_v_attrs': OBJ, '__iro__': OBJ, '__sro__': OBJ})
+init_parse_fails = z3.Function('InterfaceBase_init_arguments_do_not_parse', Obj, Obj, B)
+ARG_NAME = z3.Function('InterfaceBase_init_name_argument', Obj, Obj, Obj)         # NULL when not given
+ARG_MODULE = z3.Function('InterfaceBase_init_module_argument', Obj, Obj, Obj)
+ASSUMPTIONS.append('IB__init__: PyArg_ParseTupleAndKeywords("|OO", name, module) either fails with TypeError (oracle) or yields the two optional '
+                   'arguments (NULL when not given); which keyword NAMES it accepts is checked by the differential program "constructors" of C10 '
+                   '(fix e290ba1), not by this contract; re-initialising a live interface also clears the specification slots (the Python code does not: '
+                   'not a supported operation)')
+
+
+def _init_parse(ex, st, vs):
+    fmt = getattr(vs[2], 'lit', '')
+    outs = vs[4:]
+    if not fmt.strip('"').startswith('|OO') or len(outs) != 2 or any(not isinstance(o, cfun.VRef) for o in outs):
+        raise cfun.CUnsupported('IB__init__: argument format %r' % fmt)
+    a, k = vs[0].t, vs[1].t
+    bad = st.clone()
+    bad.assume(init_parse_fails(a, k))
+    fail(bad, cfun.EXC_TYPE_ERROR)
+    st.assume(z3.Not(init_parse_fails(a, k)))
+    st.env[outs[0].ref] = vobj(ARG_NAME(a, k))
+    st.env[outs[1].ref] = vobj(ARG_MODULE(a, k))
+    return [(bad, vint(0)), (st, vint(1))]
+
+
+def _init_post(c):
+    s, a, k = c.a.self, c.a.args, c.a.kwargs
+    ok = z3.Not(init_parse_fails(a, k))
+    o = z3.Const('ii_o', Obj)
+    return [
+        ('arguments-that-do-not-parse-are-a-TypeError-and-nothing-changes', z3.Implies(z3.Not(ok), z3.And(
+            c.res == -1, c.exc == cfun.EXC_TYPE_ERROR, c.h('__name__') == c.h0('__name__'), c.h('__module__') == c.h0('__module__')))),
+        ('name-and-module-are-the-arguments-None-when-not-given', z3.Implies(ok, z3.And(
+            c.res == 0, c.exc == C_NULL,
+            c.h('__name__')[s] == z3.If(ARG_NAME(a, k) == C_NULL, NONE, ARG_NAME(a, k)),
+            c.h('__module__')[s] == z3.If(ARG_MODULE(a, k) == C_NULL, NONE, ARG_MODULE(a, k))))),
+        ('minus-one-iff-an-exception-is-set', (c.res == -1) == (c.exc != C_NULL)),
+        ('no-other-object-is-touched', z3.ForAll([o], z3.Implies(o != s, z3.And(
+            c.h('__name__')[o] == c.h0('__name__')[o], c.h('__module__')[o] == c.h0('__module__')[o], c.h('_implied')[o] == c.h0('_implied')[o])))),
+    ]
+
+
+INIT_API = dict(API)
+INIT_API['PyArg_ParseTupleAndKeywords'] = _init_parse
+PROCS.append(CProc('IB__init__', [('self', OBJ), ('args', OBJ), ('kwargs', OBJ)], result=INT,
+                   requires=lambda c: [('self-is-an-object', z3.And(c.a.self != C_NULL, c.a.self != NONE))], ensures=_init_post,
+                   modifies=['__name__', '__module__', '_implied', '_dependents', '_bases', '_v_attrs', '__iro__', '__sro__'],
+                   api=INIT_API, globals=GLOBALS))
